@@ -18,7 +18,7 @@ import (
 	"github.com/restic/restic/internal/restic"
 )
 
-// vBNode describes one entry: Path relative to the root, Type file|dir|symlink, Key determines the
+// vBNode describes one entry: Path relative to the root, Type file|dir|symlink|socket|fifo|chardev|dev, Key determines the
 // content (files: bytes, symlinks: target), Meta the metadata variant (mtime/mode).
 type vBNode struct {
 	Path string
@@ -44,6 +44,20 @@ func vBMakeNode(n vBNode, name string) *data.Node {
 		node.Type = data.NodeTypeSymlink
 		node.Mode = os.ModeSymlink | 0o777
 		node.LinkTarget = "target-" + n.Key
+	case "socket": // restore never creates sockets (old snapshots contain them)
+		node.Type = data.NodeTypeSocket
+		node.Mode = os.ModeSocket | 0o755
+	case "fifo":
+		node.Type = data.NodeTypeFifo
+		node.Mode = os.ModeNamedPipe | 0o644
+	case "chardev":
+		node.Type = data.NodeTypeCharDev
+		node.Mode = os.ModeDevice | os.ModeCharDevice | 0o600
+		node.Device = 1<<8 | 3 // 1:3
+	case "dev":
+		node.Type = data.NodeTypeDev
+		node.Mode = os.ModeDevice | 0o600
+		node.Device = 7 << 8 // 7:0
 	default:
 		node.Type = data.NodeTypeFile
 		node.Mode = 0o644 - os.FileMode(n.Meta%2)*0o044
